@@ -353,12 +353,10 @@ def zeros(
     samples = int(np.ceil(over_sample_rate * ntmp))
 
     # Generate actual samples, removing duplicates, nonzeros and excess
-    tmpsubs = (
-        np.ceil(
-            np.random.uniform(0, 1, (samples, data.ndims)) * np.array(data.shape),
-        ).astype(int)
-        - 1
-    )
+    # np.random.uniform draws from [0, 1): floor maps every draw into the tensor
+    tmpsubs = np.floor(
+        np.random.uniform(0, 1, (samples, data.ndims)) * np.array(data.shape),
+    ).astype(int)
 
     if not with_replacement:
         tmpsubs = np.unique(tmpsubs, axis=0)
@@ -397,12 +395,10 @@ def uniform(data: ttb.tensor, samples: int) -> sample_type:
     -------
         Subscripts of samples, values at those subscripts, and weight of samples.
     """
-    subs = (
-        np.ceil(
-            np.random.uniform(0, 1, (samples, data.ndims)) * np.array(data.shape),
-        ).astype(int)
-        - 1
-    )
+    # np.random.uniform draws from [0, 1): floor maps every draw into the tensor
+    subs = np.floor(
+        np.random.uniform(0, 1, (samples, data.ndims)) * np.array(data.shape),
+    ).astype(int)
     # One value per sample (sptensor indexing yields a column, a single dense
     # sample a scalar)
     vals = np.asarray(data[subs]).reshape(-1)
